@@ -21,6 +21,13 @@ CLAIMED["C01"] = {
     "design": "4/C01",
 }
 
+CLAIMED["C02"] = {
+    "text": "Lean theorems over the Run model, for every program, command line, fault plan and answer sequence: whenever a run ends with an error its event list ENDS with the command whose status is that error (or with the declined prompt) - nothing is started afterwards at any depth (later line, dependent, subsequent, later command-line recipe); the exit code is the status (128+n for signals, 1 for not confirmed); `-` lines never stop the run; a declined [confirm] recipe emits the prompt and nothing else; --yes never prompts. Correspondence / fault enumeration against the binary: all statuses 1..255 and 10 signals with/without `-`, every single failing command of random graphs, multi-fault plans with answer sequences, each compared with the cut of the all-succeed run, with an absolute reference order, and with the Lean model.",
+    "note": "Trusted: Lean kernel; Run model (tied by the differential run); vsh (kills itself to produce signal deaths); Python harness. Core dumps / stopped children not modelled.",
+    "technique": "Lean 4 proof (induction on big-step spec) + fault enumeration differential against the binary",
+    "design": "4/C02",
+}
+
 PENDING = "check not built yet in this session (see DESIGN.md build order); no claim is made"
 
 
